@@ -96,7 +96,8 @@ func (core *JApiCore) compileUserTypeWithAllDependencies(name string) error {
 	// Add rules before we try to do something with the type.
 	for n, r := range core.rules {
 		if err := currUT.AddRule(n, r); err != nil {
-			return jschemaToJAPIError(err, dd.GetValue(n))
+			// The schema of the type is loaded here: the error belongs to the type.
+			return jschemaToJAPIError(err, dd.GetValue(name))
 		}
 	}
 
